@@ -23,8 +23,11 @@ from mc.explore import viol
 from checks import rtbase
 
 PROP = 'C13'
-CALLERS = ['alpha', 'beta', 'gamma']
-LEVEL_PATTERNS = [(), ('alpha',), ('beta',), ('alpha', 'beta')]
+# the second caller class is deliberately not lower_case: caller names are free-form strings of the spec
+BETA = 'betaTeam'
+CALLERS = ['alpha', BETA, 'gamma']
+ANN_OF = {'alpha': 'OmAlpha', BETA: 'OmBeta', 'gamma': 'OmGamma'}
+LEVEL_PATTERNS = [(), ('alpha',), (BETA,), ('alpha', BETA)]
 TIER = ['quick']
 _U = {}
 
@@ -52,7 +55,7 @@ def chain_specs(depth):
             for fname, caller in fl:
                 lines.append('    %s String' % fname)
                 if caller:
-                    lines.append('        @Om%s' % caller.capitalize())
+                    lines.append('        @%s' % ANN_OF[caller])
             lines.append('')
         chains.append((cid, names, fields))
         cid += 1
@@ -62,7 +65,7 @@ def chain_specs(depth):
 def omit_spec(depth):
     head = ['namespace om', '']
     for c in CALLERS:
-        head.append('annotation Om%s = Omitted("%s")' % (c.capitalize(), c))
+        head.append('annotation %s = Omitted("%s")' % (ANN_OF[c], c))
     head.append('')
     text, chains = chain_specs(depth)
     # unions with omitted tags, and a union chain
@@ -296,6 +299,25 @@ def omit_chain_task(item):
         inst, expect = chain_instance(u, chain, lvl)
         validator = getattr(u.om, names[lvl] + '_validator')
         full_doc = {f: v for f, c, v in expect}
+        # one permissions object whose answer changes between calls (a caller gains or loses a permission): every encoding must
+        # follow the permissions reported at that moment, i.e. equal the encoding for a fresh object with the same permissions
+        for seq in ([list(CALLERS), [], list(CALLERS)], [[], list(CALLERS), ['alpha']]):
+            shared = u.CP(seq[0])
+            for step, perms_now in enumerate(seq):
+                shared._p[:] = perms_now
+                n += 1
+                try:
+                    got = u.ss.json_compat_obj_encode(validator, inst, caller_permissions=shared)
+                    want = u.ss.json_compat_obj_encode(validator, inst, caller_permissions=u.CP(perms_now))
+                except Exception as e:  # noqa
+                    out_v.append(viol('omit-encode-raised:%s' % type(e).__name__, 'encoding with a re-used permissions object raised %r' % (e,), {'chain': shape, 'level': lvl}, repr(e)))
+                    continue
+                if got != want:
+                    oc['stale-permissions'] += 1
+                    out_v.append(viol('omitted-stale-permissions:struct', 'the same permissions object reported %r at step %d of %r but the encoding is %s, a fresh object gives %s' % (
+                        perms_now, step, seq, json.dumps(got)[:200], json.dumps(want)[:200]), {'chain': shape, 'level': lvl, 'struct': names[lvl], 'sequence': seq}))
+                else:
+                    oc['reused-permissions-ok'] += 1
         for perms in subsets(CALLERS):
             cp = u.CP(perms)
             inputs = {'chain': shape, 'level': lvl, 'struct': names[lvl], 'permissions': perms, 'specs_excerpt': [
@@ -372,12 +394,12 @@ def omit_union_task(item):
     k0_inst, k0_expect = chain_instance(u, u.chains[0], 0)
     cases = [  # (class, tag, caller, instance factory, sentinel)
         ('UnionO', 'pubv', None, lambda: om.UnionO.pubv, None), ('UnionO', 'pubt', None, lambda: om.UnionO.pubt('SENT-pubt'), 'SENT-pubt'),
-        ('UnionO', 'omv', 'alpha', lambda: om.UnionO.omv, None), ('UnionO', 'omt', 'beta', lambda: om.UnionO.omt('SENT-omt'), 'SENT-omt'),
+        ('UnionO', 'omv', 'alpha', lambda: om.UnionO.omv, None), ('UnionO', 'omt', BETA, lambda: om.UnionO.omt('SENT-omt'), 'SENT-omt'),
         ('UnionO', 'oms', 'alpha', lambda: om.UnionO.oms(k0_inst), k0_expect[0][2]),
         ('UnionOChild', 'childpub', None, lambda: om.UnionOChild.childpub('SENT-cp'), 'SENT-cp'),
         ('UnionOChild', 'childom', 'gamma', lambda: om.UnionOChild.childom('SENT-co'), 'SENT-co'),
-        ('UnionOChild', 'childomv', 'beta', lambda: om.UnionOChild.childomv, None),
-        ('UnionOChild', 'omt', 'beta', lambda: om.UnionOChild.omt('SENT-omt2'), 'SENT-omt2'),
+        ('UnionOChild', 'childomv', BETA, lambda: om.UnionOChild.childomv, None),
+        ('UnionOChild', 'omt', BETA, lambda: om.UnionOChild.omt('SENT-omt2'), 'SENT-omt2'),
         ('UnionOChild', 'omv', 'alpha', lambda: om.UnionOChild.omv, None),
         ('UnionOc', 'cv', None, lambda: om.UnionOc.cv, None), ('UnionOc', 'ct', 'alpha', lambda: om.UnionOc.ct('SENT-ct'), 'SENT-ct'),
     ]
@@ -445,7 +467,7 @@ def omit_union_task(item):
             ('nest', om.Nest_validator, nest, leaf_expect),
             ('umember-nul', om.UMember_validator, om.UMember.nul(leaf_inst), leaf_expect),
             ('umember-lst', om.UMember_validator, om.UMember.lst([leaf_inst]), leaf_expect),
-            ('tree', om.Tree_validator, tleaf, [('tp', None, 'SENT-tp'), ('tro', 'alpha', 'SENT-tro'), ('lp', None, 'SENT-lp'), ('lo', 'beta', 'SENT-lo')])]:
+            ('tree', om.Tree_validator, tleaf, [('tp', None, 'SENT-tp'), ('tro', 'alpha', 'SENT-tro'), ('lp', None, 'SENT-lp'), ('lo', BETA, 'SENT-lo')])]:
         for perms in subsets(CALLERS):
             cp = u.CP(perms)
             inputs = {'placement': label, 'permissions': perms}
